@@ -77,9 +77,8 @@ def select_family(f):
     if f.opt('w1'): calls.append(['and_where', f.cmp()])
     if f.opt('w2'): calls.append(['cond_where', ['any', False, [f.cmp(), f.cmp()]]])
     if f.opt('insub'): calls.append(['and_where', ['m', 'in_subquery', C('q'), f.small_select('insub')]])
-    if f.opt('group'):
-        calls.append(['group_by', C('g')])
-        if f.opt('having'): calls.append(['and_having', f.cmp()])
+    if f.opt('group'): calls.append(['group_by', C('g')])
+    if f.opt('having'): calls.append(['and_having', f.cmp()])      # HAVING without GROUP BY is valid in the three dialects (the whole result is one group)
     if f.opt('union'):
         ut = ['All', 'Distinct', 'Intersect', 'Except'][f.pick('utype', 4)]
         calls.append(['union', ut, f.small_select('u', with_limit=('ulimit' not in f.on) or f.opt('ulimit'))])
@@ -117,14 +116,19 @@ def select_family(f):
     if f.b != 'sqlite' and f.opt('lock'): calls.append(['lock', 'Update'])
     return {'k': 'select', 'calls': calls}
 
-INSERT_TOGGLES = ['rows', 'cols', 'select', 'conflict', 'cwhere', 'returning', 'cte']
+INSERT_TOGGLES = ['rows', 'cols', 'select', 'conflict', 'cwhere', 'returning', 'cte', 'defaults']
 
 def insert_family(f):
     calls = [['into_table', ['t', 't']]]
     ncols = 1 + f.pick('cols', 2)
     cols = ['c%d' % i for i in range(ncols)]
-    calls.append(['columns', cols])
-    if f.opt('select'):
+    dk = f.pick('defaults', 3)
+    if dk:
+        # the default-values form: no column list, no source
+        calls.append(['or_default_values'] if dk == 1 else ['or_default_values_many', 2])
+    else: calls.append(['columns', cols])
+    if dk: pass
+    elif f.opt('select'):
         sel = {'k': 'select', 'calls': [['column', C('s%d' % i)] for i in range(ncols)] + [['from', ['t', 'src']], ['and_where', f.cmp()]]}
         calls.append(['select_from', sel])
     else:
@@ -201,8 +205,10 @@ def with_family(f):
 
 FAMILIES = {
     # name: (generator, toggle groups for the quick tier, toggles of the thorough tier)
-    'select': (select_family, [['distinct', 'valitem', 'case', 'cust', 'from', 'cte'], ['from', 'arity', 'vrows', 'join', 'w1', 'insub'], ['w2', 'group', 'having', 'join', 'w1'], ['w1', 'union', 'order', 'limit', 'offset', 'window']],
-               [SELECT_TOGGLES[:8], SELECT_TOGGLES[4:12], SELECT_TOGGLES[10:], ['valitem', 'cust', 'from', 'arity', 'w1', 'union', 'order', 'limit', 'offset', 'window']]),
+    'select': (select_family, [['distinct', 'valitem', 'case', 'cust', 'from', 'cte'], ['from', 'arity', 'vrows', 'join', 'w1', 'insub'], ['w2', 'group', 'having', 'join', 'w1'], ['w1', 'union', 'order', 'limit', 'offset', 'window'],
+                               ['union', 'utype', 'ulimit', 'order', 'ordnulls', 'ordfunc', 'window', 'frame']],
+               [SELECT_TOGGLES[:10], SELECT_TOGGLES[5:15], SELECT_TOGGLES[9:], ['valitem', 'cust', 'from', 'arity', 'w1', 'union', 'order', 'limit', 'offset', 'window'],
+                ['from', 'union', 'utype', 'ulimit', 'order', 'ordnulls', 'ordfunc', 'window', 'frame', 'limit', 'offset'], ['cte', 'distinct', 'case', 'insub', 'group', 'having', 'union', 'utype', 'window', 'frame']]),
     'insert': (insert_family, [INSERT_TOGGLES], [INSERT_TOGGLES]),
     'update': (update_family, [UPDATE_TOGGLES], [UPDATE_TOGGLES]),
     'delete': (delete_family, [DELETE_TOGGLES], [DELETE_TOGGLES]),
